@@ -26,10 +26,12 @@ STARTS = [
     '@namespace p "u"; p|a{x:1}',
     '@namespace "u"; @namespace q "v"; a{x:1} q|b{x:1}',
     '@namespace p "u"; @namespace q "v"; p|a q|b{x:1} [q|x]{x:1} @media tv{p|c{x:1}}',
+    '@charset "utf-8"; /*c*/ @namespace p "u"; @namespace q "v"; a{x:1}',
+    '@namespace p "u"; @media tv{p|c{x:1}}',
 ]
-OPS = ['ns_set', 'ns_del', 'add_ns', 'insert_ns', 'delete_rule', 'add_style', 'set_selector', 'set_prefix', 'attach']
+OPS = ['ns_set', 'ns_del', 'add_ns', 'insert_ns', 'insert_ns_object', 'delete_rule', 'add_style', 'set_selector', 'set_prefix', 'attach']
 # (number of choices for argument 1, argument 2)
-ARITY = {'ns_set': (3, 2), 'ns_del': (3, 1), 'add_ns': (3, 2), 'insert_ns': (3, 2), 'delete_rule': (5, 1),
+ARITY = {'ns_set': (3, 2), 'ns_del': (3, 1), 'add_ns': (3, 2), 'insert_ns': (3, 2), 'insert_ns_object': (3, 2), 'delete_rule': (5, 1),
          'add_style': (len(SELS), 1), 'set_selector': (len(SELS), 1), 'set_prefix': (3, 1), 'attach': (2, 1)}
 
 ANY = -1
@@ -158,6 +160,13 @@ def apply_op(cssutils, sheet, tracked, op, a1, a2):
             sheet.add('@namespace %s "%s";' % (PREFIXES[a1], URIS[a2]))
         elif op == 'insert_ns':
             sheet.insertRule('@namespace %s "%s";' % (PREFIXES[a1], URIS[a2]), 0)
+        elif op == 'insert_ns_object':
+            # a rule object, placed after the last @namespace (or leading @charset / @import) rule
+            idx = 0
+            for i, r in enumerate(sheet.cssRules):
+                if r.type in (r.CHARSET_RULE, r.IMPORT_RULE, r.NAMESPACE_RULE):
+                    idx = i + 1
+            sheet.insertRule(cssutils.css.CSSNamespaceRule(prefix=PREFIXES[a1], namespaceURI=URIS[a2]), idx)
         elif op == 'delete_rule':
             if a1 < len(sheet.cssRules):
                 r = sheet.cssRules[a1]
@@ -218,7 +227,7 @@ def apply_op(cssutils, sheet, tracked, op, a1, a2):
 def describe(start, steps):
     out = ['start %r' % STARTS[start]]
     for op, a1, a2 in steps:
-        if op in ('ns_set', 'add_ns', 'insert_ns'):
+        if op in ('ns_set', 'add_ns', 'insert_ns', 'insert_ns_object'):
             out.append('%s(%r, %r)' % (op, PREFIXES[a1], URIS[a2]))
         elif op in ('ns_del', 'set_prefix'):
             out.append('%s(%r)' % (op, PREFIXES[a1]))
